@@ -9,6 +9,8 @@
      Q <id> lprt + SLP block               -> A <id> <wf_lpb 0|1> <OK|ERR|FLT|FUEL> <equiv_by_name P (read_lp (write_lp P))>
      Q <id> mpswrite + MLP block           -> A <id> <enc line>*       (IO/MpsWrite.write_mps)
      Q <id> lpread <0|1> <enc text> + (NONE | SLP block of the library's result) -> A <id> <OK|ERR|FLT|FUEL> <agree> <ncols> <nrows>
+     Q <id> mpsread <0|1> <enc text> + (NONE | SLP block of the library's result) -> A <id> <OK|ERR:<reason>|FLT|FUEL> <agree> <ncols> <nrows>   (IO/MpsRead.read_mps_res)
+     Q <id> mpsrt [0|1] + MLP block        -> A <id> <wf_coreb> <setnames_okb> <outcome of read_mps_res (write_mps[_fixed] P)> <equiv_by_name P P'>
 *)
 open Model
 open Glue
@@ -127,6 +129,18 @@ let show_bstmt b = match b with
   | BFix v -> "FIX " ^ show_q v | BFreeS -> "FREE" | BLo v -> "LO " ^ show_q v
   | BUp v -> "UP " ^ show_q v | BLoUp (l, u) -> "LOUP " ^ show_q l ^ " " ^ show_q u
 
+let reason_name e = match e with
+  | EBadKey -> "BadKey" | ETwoSections -> "TwoSections" | ESectionOrder -> "SectionOrder" | EMissingObjLine -> "MissingObjLine"
+  | EBadObjRecord -> "BadObjRecord" | EBadObjsense -> "BadObjsense" | EBadRefrow -> "BadRefrow" | ENoSection -> "NoSection"
+  | ERowSense -> "RowSense" | ERowRepeated -> "RowRepeated" | ERowMissingName -> "RowMissingName" | EMarkerBad -> "MarkerBad"
+  | EMarkerMissing -> "MarkerMissing" | EMarkerField -> "MarkerField" | ESosOther -> "SosOther" | EColMissingFields -> "ColMissingFields"
+  | EColNotRow -> "ColNotRow" | EColBadCoef -> "ColBadCoef" | ERhsMissingRow -> "RhsMissingRow" | ERhsNotRow -> "RhsNotRow"
+  | ERhsBadCoef -> "RhsBadCoef" | ERhsTwice -> "RhsTwice" | ERngMissingRow -> "RngMissingRow" | ERngNotRow -> "RngNotRow"
+  | ERngBadCoef -> "RngBadCoef" | EBndType -> "BndType" | EBndNoIdent -> "BndNoIdent" | EBndMissingCol -> "BndMissingCol"
+  | EBndNotCol -> "BndNotCol" | EBndBadValue -> "BndBadValue" | EObjNameUnknown -> "ObjNameUnknown" | ENoNRow -> "NoNRow"
+  | ERefrowUnknown -> "RefrowUnknown" | ENoCols -> "NoCols" | ESosInt -> "SosInt" | ESosWeight -> "SosWeight"
+  | EBoundsCross -> "BoundsCross" | ENoUsedCols -> "NoUsedCols" | ENoRows -> "NoRows" | ERangeOnN -> "RangeOnN"
+
 let () =
   let ic = stdin in
   let rec loop () =
@@ -202,9 +216,10 @@ let () =
              | PrOk p' -> ("OK", equiv_by_name (to_nlp p) (to_nlp p'))
              | PrErr -> ("ERR", false) | PrFlt -> ("FLT", false) | PrFuel -> ("FUEL", false)) in
            Printf.printf "A %s %s %s %s\n" id (if wf then "1" else "0") tag (string_of_bool eqv)
-         | "mpswrite", [] ->
+         | "mpswrite", vs ->
+           (* variant 1: the writer with notes/repo_patches/mps_setname_clash.diff (set names made unique) *)
            let p = (match next_tokens ic with Some h -> read_mlp_hdr ic h | None -> failwith "MLP expected") in
-           let ls = write_mps !sentinel p in
+           let ls = if vs = [ "1" ] then write_mps_fixed !sentinel p else write_mps !sentinel p in
            Printf.printf "A %s %s\n" id (String.concat " " (List.map (fun l -> enc (string_of_chars l)) ls))
          | "lpread", [ v; t ] ->
            (* model reader on the text; then NONE (the library rejected the file) or the SLP block of what the library delivered.
@@ -224,6 +239,46 @@ let () =
              | _, None -> (true, 0, 0)
              | _, Some _ -> (false, 0, 0)) in
            Printf.printf "A %s %s %s %d %d\n" id tag (string_of_bool agree) nc nr
+         | "mpsread", [ v; t ] ->
+           let r = read_mps_res (v = "1") !sentinel (split_lines (chars_of_string (dec t))) in
+           let lib = (match next_tokens ic with
+             | Some [ "NONE" ] -> None
+             | Some h -> Some (read_slp_hdr ic h)
+             | None -> failwith "NONE or SLP expected") in
+           let tag = (match r with MOk _ -> "OK" | MErr e -> "ERR:" ^ reason_name e | MFlt -> "FLT" | MFuel -> "FUEL") in
+           let agree, nc, nr = (match r, lib with
+             | MOk p, Some l ->
+               let a = mlp_to_nlp p and b = to_nlp l in
+               (equiv_by_name a b && equiv_by_name b a && List.length p.m_cols = List.length l.l_cols && List.length p.m_rows = List.length l.l_rows,
+                List.length p.m_cols, List.length p.m_rows)
+             | MOk p, None -> (false, List.length p.m_cols, List.length p.m_rows)
+             | _, None -> (true, 0, 0)
+             | _, Some _ -> (false, 0, 0)) in
+           Printf.printf "A %s %s %s %d %d\n" id tag (string_of_bool agree) nc nr
+         | "mpsrt", vs ->
+           (* the statement of C09_mps_roundtrip evaluated on one problem: <wf_coreb> <setnames_okb> <outcome of read_mps_res (write_mps P)> <equiv_by_name P P'> *)
+           let p = (match next_tokens ic with Some h -> read_mlp_hdr ic h | None -> failwith "MLP expected") in
+           let wc = wf_coreb !sentinel p and sn = setnames_okb !sentinel p in
+           let r = read_mps_res true !sentinel (if vs = [ "1" ] then write_mps_fixed !sentinel p else write_mps !sentinel p) in
+           let tag, eqv = (match r with
+             | MOk p' -> ("OK", equiv_by_name (mlp_to_nlp p) (mlp_to_nlp p'))
+             | MErr e -> ("ERR:" ^ reason_name e, false) | MFlt -> ("FLT", false) | MFuel -> ("FUEL", false)) in
+           Printf.printf "A %s %s %s %s %s\n" id (if wc then "1" else "0") (if sn then "1" else "0") tag (string_of_bool eqv)
+         | "esolver", rl :: rm :: bv :: sv :: st :: pv :: wv :: args ->
+           (* IO/Esolver.esolver on an argument list (av[1..], %-encoded) in an environment: does the file read as LP / as MPS,
+              return value of the basis load, of the solver, status, return values of print_sol and write_basis.
+              answer: USAGE | VERSION | FAULT | RUN <L|M> <exit> <first line | -> <basis written 0|1> <sol file | -> <basis file | -> *)
+           let zi s = coqz_of_z (BZ.of_string s) in
+           let env = { v_read_lp = (rl = "1"); v_read_mps = (rm = "1"); v_basis = zi bv; v_solver = zi sv; v_status = zi st; v_printsol = zi pv; v_writebasis = zi wv } in
+           let av = List.map (fun a -> chars_of_string (dec a)) args in
+           let so o = (match o with Some a -> enc (string_of_chars a) | None -> "-") in
+           (match esolver av env with
+            | RUsage -> Printf.printf "A %s USAGE\n" id
+            | RVersion -> Printf.printf "A %s VERSION\n" id
+            | RFault -> Printf.printf "A %s FAULT\n" id
+            | RRun (c, o) ->
+              Printf.printf "A %s RUN %s %s %s %s %s %s\n" id (match the_ftype c with FLp -> "L" | FMps -> "M" | FFault -> "?")
+                (BZ.to_string (z_of_coqz o.o_exit)) (so o.o_line) (if o.o_basis then "1" else "0") (so c.e_sol) (so c.e_wbasis))
          | "parseline", [ v; l ] ->
            (match parse_line (v = "1") (chars_of_string (dec l)) with
             | None -> Printf.printf "A %s NONE\n" id
